@@ -119,7 +119,7 @@ int main(int argc, char** argv) {
 	using namespace rc;
 	auto minimizer = [](const pg::ProgCase& c) { return pg::minimize(c, [](const pg::ProgCase& t) { return !body(t).empty(); }); };
 	// shape weights: natural, saturated, branchy, store-L3, sparse, fp-heavy, rcp-noop
-	vh::registerCheck<pg::ProgCase>("a64_prog", [] { return pg::genProgCase({6, 4, 3, 2, 2, 2, 1, 1}, 70, false); }, body, true, minimizer);
+	vh::registerCheck<pg::ProgCase>("a64_prog", [] { return pg::genProgCase({6, 4, 3, 2, 2, 2, 1, 1, 3}, 70, false); }, body, true, minimizer);
 	vh::registerCheck<DCase>("a64_dataset", [] {
 		return gen::resize(100, gen::apply([](uint64_t s, int cnt, int kind) { const uint64_t N = DatasetSize / 64; uint64_t start = kind == 0 ? 0 : kind == 1 ? N - cnt : s % (N - cnt); return DCase{start, (uint32_t)cnt}; },
 			gen::arbitrary<uint64_t>(), gen::inRange(1, 33), gen::inRange(0, 4)));
